@@ -331,6 +331,7 @@ class Discharger:
         self.ctx, self.oa = ctx, oa
         self._param_neutral_cache: Dict[Tuple[str, str], Optional[str]] = {}
         self.allow_hits: List[tuple] = []
+        self._acc_busy: Set[str] = set()
         self.trans_order_sensitive = self._order_sensitive_summaries()
 
     # functions that (transitively) append/insert into ordered containers or write dict keys / emit text
@@ -412,8 +413,38 @@ class Discharger:
                        f"stable), so ties are resolved by the hash seed")
 
     # -- loops ----------------------------------------------------------------------------------------------
+    @staticmethod
+    def _search_loop(lp: ast.For) -> bool:
+        """`for x in S: if <test>: return <constant>` and nothing else: the loop answers "is there an element that ..." - every
+        exit inside the loop returns the same constant, so it does not matter which element is met first."""
+        consts = []
+
+        def ok(stmts) -> bool:
+            for st in stmts:
+                if isinstance(st, (ast.Pass, ast.Continue)):
+                    continue
+                if isinstance(st, ast.If):
+                    if any(isinstance(x, (ast.Call, ast.NamedExpr, ast.Await, ast.Yield)) and not (
+                            isinstance(x, ast.Call) and isinstance(x.func, ast.Name) and x.func.id in ("len", "isinstance", "type", "str"))
+                            and not (isinstance(x, ast.Call) and isinstance(x.func, ast.Attribute) and x.func.attr in (
+                                "startswith", "endswith", "isdigit", "get", "match", "fullmatch", "search"))
+                            for x in ast.walk(st.test)):
+                        return False
+                    if not ok(st.body) or not ok(st.orelse):
+                        return False
+                    continue
+                if isinstance(st, ast.Return) and (st.value is None or isinstance(st.value, ast.Constant)):
+                    consts.append(None if st.value is None else st.value.value)
+                    continue
+                return False
+            return True
+
+        return not lp.orelse and ok(lp.body) and bool(consts) and len({repr(c) for c in consts}) == 1
+
     def _loop_commutative(self, fi, mod, lp: ast.For) -> Tuple[bool, str]:
         lv = names_in(lp.target)
+        if self._search_loop(lp):
+            return True, "search loop: every exit inside the loop returns the same constant (an existence test)"
         for st in lp.body + lp.orelse:
             ok, why = self._stmt_commutative(fi, mod, st, lv, lp)
             if not ok:
@@ -452,7 +483,13 @@ class Discharger:
                 if not ok:
                     return False, why
             return True, ""
+        if isinstance(st, ast.Expr) and isinstance(st.value, (ast.Yield, ast.YieldFrom)) and fi is not None:
+            # a generator that yields in visiting order: what matters is what the callers do with the sequence
+            return self._return_uses(fi, 1)
         if isinstance(st, ast.Expr) and isinstance(st.value, ast.Call):
+            acc = self._accumulator(fi, mod, st.value)
+            if acc is not None:
+                return acc
             return self._call_commutative(fi, mod, st.value, lv)
         if isinstance(st, (ast.Assign, ast.AugAssign)):
             tgts = st.targets if isinstance(st, ast.Assign) else [st.target]
@@ -483,6 +520,14 @@ class Discharger:
                     if isinstance(t.slice, ast.Name) and t.slice.id in lv and any(
                             isinstance(x, ast.Subscript) and norm(x) == norm(t) and isinstance(x.ctx, ast.Load)
                             for x in ast.walk(st.value)):
+                        continue
+                    # the same entry was read earlier in this iteration (`cur = D[x]` ... `D[x] = f(cur)`): the read fails for a
+                    # missing key, so the store replaces an existing entry and the order of the dict is untouched
+                    if any(isinstance(x, ast.Subscript) and isinstance(x.ctx, ast.Load) and norm(x) == norm(t)
+                           and (x.lineno, x.col_offset) < (st.lineno, st.col_offset) for b in lp.body for x in ast.walk(b)) and not any(
+                            isinstance(x, ast.Delete) or (isinstance(x, ast.Call) and isinstance(x.func, ast.Attribute)
+                                                          and x.func.attr in ("pop", "clear", "popitem") and norm(x.func.value) == norm(t.value))
+                            for b in lp.body for x in ast.walk(b)):
                         continue
                     if self.oa.is_unordered(fi, mod, t.value):
                         continue
@@ -567,6 +612,37 @@ class Discharger:
         """Conditions like `a is cls or b is cls` / `(t1, t2) in self.replaces` (a set not written by the loop)."""
         return False
 
+    def _accumulator(self, fi, mod, call: ast.Call) -> Optional[Tuple[bool, str]]:
+        """`acc.append(...)` / `acc.extend(...)` on a local list that starts empty: the list is a sequence in visiting order,
+        exactly like `[... for x in S]`; it is harmless when every other use of the list is order-neutral."""
+        f = call.func
+        if fi is None or not (isinstance(f, ast.Attribute) and f.attr in ("append", "extend") and isinstance(f.value, ast.Name)):
+            return None
+        name = f.value.id
+        if name in param_names(fi.node) or name in self._acc_busy:
+            return None
+        defs = [n for n in walk_no_nested(fi.node) if isinstance(n, (ast.Assign, ast.AnnAssign))
+                and any(isinstance(t, ast.Name) and t.id == name for t in (n.targets if isinstance(n, ast.Assign) else [n.target]))]
+        if len(defs) != 1:
+            return None
+        v = defs[0].value
+        fresh = (isinstance(v, ast.List) and not v.elts) or (isinstance(v, ast.Call) and norm(v.func) == "list" and not v.args)
+        if not fresh:
+            return None
+        uses = [x for x in walk_no_nested(fi.node) if isinstance(x, ast.Name) and x.id == name and isinstance(x.ctx, ast.Load)]
+        self._acc_busy.add(name)
+        try:
+            for u in uses:
+                par = mod.parents.get(u)
+                if isinstance(par, ast.Attribute) and par.attr in ("append", "extend") and isinstance(mod.parents.get(par), ast.Call):
+                    continue
+                ok, why = self._value_uses(fi, mod, u, f"`{name}`", 1)
+                if not ok:
+                    return None            # the general rule reports the append itself
+        finally:
+            self._acc_busy.discard(name)
+        return True, f"`{name}` collects the elements in visiting order and every use of it is order-neutral"
+
     def _call_commutative(self, fi, mod, call: ast.Call, lv: Set[str]) -> Tuple[bool, str]:
         f = call.func
         if isinstance(f, ast.Attribute):
@@ -640,6 +716,12 @@ class Discharger:
         if isinstance(par, ast.keyword):
             call = mod.parents.get(par)
             return self._arg_flow(fi, mod, call, node, depth, kw=par.arg)
+        if isinstance(par, ast.Attribute) and par.value is node and par.attr == "sort" and isinstance(mod.parents.get(par), ast.Call):
+            call = mod.parents.get(par)
+            kw = [k for k in call.keywords if k.arg == "key"]
+            if kw:
+                return self._key_total(fi, mod, kw[0].value)
+            return True, "sorted in place"
         if isinstance(par, ast.Compare):
             return True, "compared (membership / equality)"
         if isinstance(par, (ast.If, ast.While, ast.IfExp, ast.BoolOp, ast.UnaryOp)) and (
@@ -701,7 +783,33 @@ class Discharger:
                     return f"guarded by `{norm(test)}`: at most one element"
                 if in_false and ((op is ast.Gt and c == 1) or (op is ast.GtE and c == 2) or (op is ast.NotEq and c == 1)):
                     return f"in the else-branch of `{norm(test)}`: at most one element"
+            # an earlier `if len(C) > 1: return/raise/continue` in the same block: below it C has at most one element
+            if isinstance(p, ast.stmt):
+                blk = self._block_of(mod, p)
+                if blk is not None:
+                    read = {norm(x) for x in ast.walk(node) if isinstance(x, (ast.Name, ast.Attribute))}
+                    for st in blk[:[i for i, x in enumerate(blk) if x is p][0]]:
+                        if isinstance(st, ast.If) and not st.orelse and st.body and isinstance(st.body[-1], (ast.Return, ast.Raise, ast.Continue)) \
+                                and isinstance(st.test, ast.Compare) and len(st.test.ops) == 1 and isinstance(st.test.left, ast.Call) \
+                                and norm(st.test.left.func) == "len" and len(st.test.left.args) == 1 and norm(st.test.left.args[0]) in read \
+                                and isinstance(st.test.comparators[0], ast.Constant):
+                            c, op = st.test.comparators[0].value, type(st.test.ops[0])
+                            if (op is ast.Gt and c == 1) or (op is ast.GtE and c == 2) or (op is ast.NotEq and c == 1):
+                                target = norm(st.test.left.args[0])
+                                between = blk[blk.index(st) + 1:[i for i, x in enumerate(blk) if x is p][0]]
+                                if not any(isinstance(x, ast.Name) and x.id == target and isinstance(x.ctx, ast.Store)
+                                           for b in between for x in ast.walk(b)):
+                                    return f"after `if {norm(st.test)}: {norm(st.body[-1])[:20]}`: at most one element"
             child, p = p, mod.parents.get(p)
+        return None
+
+    @staticmethod
+    def _block_of(mod, st: ast.stmt):
+        par = mod.parents.get(st)
+        for fld in ("body", "orelse", "finalbody"):
+            blk = getattr(par, fld, None)
+            if isinstance(blk, list) and any(x is st for x in blk):
+                return blk
         return None
 
     def _name_uses(self, fi, mod, name: str, definition: ast.AST, depth: int) -> Tuple[bool, str]:
@@ -716,6 +824,17 @@ class Discharger:
         wl = self._worklist_idiom(fi, mod, name, uses)
         if wl is not None:
             return wl
+        # `name = list(S)` ... `name.sort(...)` in the same block: later reads see the sorted list
+        if isinstance(definition, ast.stmt):
+            blk = self._block_of(mod, definition)
+            if blk is not None:
+                for st in blk[blk.index(definition) + 1:]:
+                    if isinstance(st, ast.Expr) and isinstance(st.value, ast.Call) and isinstance(st.value.func, ast.Attribute) and \
+                            st.value.func.attr == "sort" and norm(st.value.func.value) == name:
+                        uses = [u for u in uses if u.lineno <= st.lineno]
+                        break
+                    if any(isinstance(x, ast.Name) and x.id == name and isinstance(x.ctx, ast.Store) for x in ast.walk(st)):
+                        break
         for u in uses:
             ok, why = self._value_uses(fi, mod, u, f"`{name}`", depth + 1)
             if not ok:
